@@ -65,6 +65,11 @@ func (r *RecReplayer) Put(m *sse.Message, topics []string) (*sse.Message, error)
 		e.End = r.tick()
 		r.append(e)
 		panic("injected replayer panic in Put")
+	case "panic_err":
+		e.End = r.tick()
+		r.append(e)
+		var nilMap map[string]int
+		nilMap["x"] = 1 // runtime error: a panic that carries an error value
 	case "err":
 		err = &InjectedError{Where: "put", N: n}
 	default:
@@ -108,6 +113,10 @@ func (r *RecReplayer) Replay(sub sse.Subscription) error {
 		e.End = r.tick()
 		r.append(e)
 		panic("injected replayer panic in Replay")
+	case "panic_err":
+		e.End = r.tick()
+		r.append(e)
+		panic(&InjectedError{Where: "replay-panic", N: n})
 	case "err":
 		err = &InjectedError{Where: "replay", N: n}
 	default:
